@@ -21,7 +21,7 @@ fn hist(key: &[u8; 32], prog: &str) -> String {
                     "R" => Some(hex(cur.result().code())),
                     "W" => {
                         let n = if rest.is_empty() { 16 } else { us(rest) };
-                        let mut out = vec![0u8; n];
+                        let mut out = vec![0xa5u8; n];
                         cur.raw_result(&mut out);
                         Some(hex(&out[..16]))
                     }
@@ -69,7 +69,7 @@ pub fn run(op: &str, a: &[&str]) -> Option<String> {
             for c in split_at_lens(&lens, &msg) {
                 p.input(c);
             }
-            let mut out = [0u8; 16];
+            let mut out = [0xa5u8; 16];
             p.raw_result(&mut out);
             hex(&out)
         }
